@@ -475,8 +475,9 @@ class Interp:
             cur = self.load_name(t.id, st, t)
             res = self.binop(s.op, cur, rhs, st, s)
             if "maybe-int" in cur.tags and cur.kind == "arr":
+                lengthy = rhs.kind == "arr" and dim_known(dim_collapse(rhs.dim)) and dim_collapse(rhs.dim)[1] != 0 and "maybe-int" not in rhs.tags
                 if opname == "Div" or (opname in ("Add", "Sub", "Mult") and ((rhs.is_number_const() and isinstance(rhs.const, float)
-                                       and not float(rhs.const).is_integer()) or self.floaty_expr(s.value))):
+                                       and not float(rhs.const).is_integer()) or self.floaty_expr(s.value) or lengthy)):
                     self.emit(st, "int-inplace", s, op=opname, rhs=rhs, target=t.id, cur=cur)
                 res = res.copy(tags=res.tags | {"maybe-int"})
             if cur.al and cur.kind not in ("int", "float", "bool", "str", "none"):
